@@ -47,6 +47,15 @@ CHECKS = {
     "C18": ("fault_enumeration", "runtime fault enumeration through linter.NewChecker on the registered ruleguard checker: sequences of rule files from a fault alphabet x failOn settings x enable/disable vectors; 12-line policy spec with don't-cares as oracle; CLI sample",
             "Rule files {valid x3, unreadable (directory, dangling symlink), syntax error, DSL error, empty, unloadable import} are combined in sequences of length 1-4 and globs with every failOn setting (legacy boolean, unknown values) and enable/disable vectors over names and tags; init error vs success and exactly-one-diagnostic-per-surviving-group on a probe file are compared with the executable policy.",
             "unreadable files under failOn=dsl are don't-care; the unloadable import only counts when its group passes the filter", "5/C18"),
+    "C13": ("exploration", "runtime metamorphic monitoring: the maintainers' example packages are transformed (append, pad, permute) and re-analysed; the examples' own /*! */ expectations, which move with their declaration, are the oracle; identity round as control",
+            "All 107 example packages are copied into the scratch module under T1 (append unrelated declarations), T2 (blank lines/padding declarations after the import block), T4 (permute plain functions) and combinations with seeded choices; every expected warning must still be produced and no new one may appear outside padding; order-subject checkers are exempt from permutation only.",
+            "the harness reproduces linttest's configuration; an example whose untouched copy fails is excluded as a harness mismatch (listed in evidence)", "5/C13"),
+    "C14": ("exploration", "runtime monitoring of threshold families: constructs of measure n x thresholds t around every boundary through the in-process override, both CLIs and the analyzer; compiled unsafe.Sizeof program as the size oracle",
+            "For every numeric parameter a family K_n is analysed at thresholds around n; the documented direction predicate decides each (n,t) pair (which implies unit step and monotonicity), neighbouring thresholds are compared by set inclusion, byte sizes quoted in messages are compared with a compiled unsafe.Sizeof program for padded structs, and each parameter value is passed in-process, through both CLIs and through the analyzer flag with equal results; boolean parameters run on discriminating inputs.",
+            "commentedOutCode's 'length of the comment' has no unambiguous unit anchor (go/ast's Text() ends with a newline): only unit step and monotonicity are demanded there", "5/C14"),
+    "C15": ("exploration", "runtime monitoring of every diagnostic produced under target versions 1.13-1.23 (embedded rules, hand-written checkers, dynamic ruleguard on the same rule source) against a first-appearance table built from GOROOT/api; differential unset vs newest, 1.N vs go1.N, front-end -go vs SetGoVersion",
+            "Recommended APIs (pkg.Name, .Method, 0o literals that do not occur in the flagged source window) are looked up in GOROOT/api/go1.*.txt; a recommendation newer than the configured version is a violation; unset must equal 1.99, 1.N must equal go1.N, 1.9 must not get what first appears at 1.13, and CLI/analyzer -go must equal the in-process run.",
+            "method recommendations use the earliest version of any std method with that name (conservative)", "5/C15"),
 }
 
 PENDING = {}
